@@ -821,6 +821,23 @@ func (ex *Exec) evalCall(e *Expr, env *Env) Val {
 		}
 		fn := ex.prog.SSA.FuncValue(m)
 		if fn == nil {
+			// method of an interface value: the `iface I.M` specification, when it declares the method pure
+			if named, isN := types.Unalias(rt).(*types.Named); isN && named.Obj().Pkg() != nil {
+				if _, isI := under(rt).(*types.Interface); isI {
+					cname := "iface " + named.Obj().Name() + "." + f.Name
+					if c := ex.prog.Types[fkey(named.Obj().Pkg().Path(), cname)]; c != nil && c.Pure {
+						var av []Val
+						av = append(av, recv)
+						for _, a := range args {
+							av = append(av, ex.eval1(a, env))
+						}
+						sig := m.Type().(*types.Signature)
+						if app := ex.pureApp(c, cname, av, sig, env); app != nil {
+							return app
+						}
+					}
+				}
+			}
 			unsup("contract: method %s has no SSA function", f.Name)
 		}
 		// adjust receiver (value vs pointer)
